@@ -463,6 +463,20 @@ func opMate(g *G, method string) (interface{}, []uint64, int, interface{}) {
 	if len(a.ControlGenes) > 0 || len(b.ControlGenes) > 0 {
 		return nil, nil, 0, nil
 	}
+	if g.chance(0.2) {
+		// trait parameters of any sign and size (hand-built / file-loaded genomes; mutation keeps them >= 0, the average of
+		// two parameters is defined for all values)
+		for _, gn := range []*genetics.Genome{a, b} {
+			for _, tr := range gn.Traits {
+				for i := range tr.Params {
+					if g.chance(0.5) {
+						tr.Params[i] = (g.f64() - 0.7) * 10
+					}
+				}
+			}
+		}
+		family += "/signed-traits"
+	}
 	// fitness orderings including ties
 	f1, f2 := float64(g.intn(4)), float64(g.intn(4))
 	if g.chance(0.3) {
